@@ -46,6 +46,23 @@ for d in sorted(glob.glob('/verif/seeded/*')):
         dirs.append(d)
 with cf.ThreadPoolExecutor(8) as ex:
     seeds = list(ex.map(seed, dirs))
+# behaviour-preserving refactorings produced independently: must stay silent for this property
+def neutral(d):
+    sid = os.path.basename(d)
+    w = tempfile.mkdtemp(prefix='wc-neu.', dir='/tmp')
+    try:
+        subprocess.run(['rsync', '-a', '--exclude', '.git', '/repo/', w + '/'], check=True)
+        subprocess.run(['git', 'init', '-q'], cwd=w)
+        if subprocess.run(['git', 'apply', '--whitespace=nowarn', d + '/patch.diff'], cwd=w, capture_output=True).returncode != 0:
+            return {'variant': sid, 'status': 'SKIP'}
+        r = subprocess.run(['/verif/bin/wirecheck', '-repo', w, '-property', prop, '-evidence', w + '/.ev', '-known', '/verif/known_findings.json'], env=ENV, capture_output=True, text=True)
+        rules = sorted({l.split()[1] for l in r.stdout.splitlines() if l.startswith('  VIOLATION') or l.startswith('  UNDECIDED')})
+        return {'variant': sid, 'status': 'SILENT' if not rules else 'ALARM', 'rules': rules}
+    finally:
+        shutil.rmtree(w, ignore_errors=True)
+ndirs = sorted(glob.glob('/verif/seeded/neutral/N*'))
+with cf.ThreadPoolExecutor(8) as ex:
+    neutrals = list(ex.map(neutral, ndirs))
 ev_path = '/verif/evidence/%s.json' % prop
 ev = json.load(open(ev_path))
 own = [m for m in mut if m.get('expect')]
@@ -56,11 +73,13 @@ sv = {
     'neutral_variants': [{'name': m['name'], 'status': m['status']} for m in neu],
     'seeded_changes_run': len(seeds), 'seeded_changes_detected': sum(1 for s in seeds if s['status'] == 'DETECTED'),
     'seeded_changes': seeds,
+    'independent_refactorings_run': len(neutrals), 'independent_refactorings_silent': sum(1 for x in neutrals if x['status'] == 'SILENT'),
+    'independent_refactorings_alarming': [x for x in neutrals if x['status'] == 'ALARM'],
     'note': 'self-validation on scratch copies of the current /repo tree; does not change the verdict on /repo',
 }
 ev['coverage']['self_validation'] = sv
 json.dump(ev, open(ev_path, 'w'), indent=1)
 bad = [m['name'] for m in own if m['status'] not in ('OK', 'SKIP')] + [m['name'] for m in neu if m['status'] not in ('OK', 'SKIP')] + [s['seed'] for s in seeds if s['status'] == 'MISSED']
-print('SELF-VALIDATION property=%s mutants %d/%d detected, neutral %d/%d silent, seeds %d/%d detected%s' % (
+print('SELF-VALIDATION property=%s mutants %d/%d detected, neutral %d/%d silent, seeds %d/%d detected, independent refactorings %d/%d silent%s' % (
     prop, sv['mutants_detected_by_expected_rule'], sv['mutants_run'], sv['neutral_variants_silent'], sv['neutral_variants_run'],
-    sv['seeded_changes_detected'], sv['seeded_changes_run'], ('; ATTENTION: ' + ', '.join(bad)) if bad else ''))
+    sv['seeded_changes_detected'], sv['seeded_changes_run'], sv['independent_refactorings_silent'], sv['independent_refactorings_run'], ('; ATTENTION: ' + ', '.join(bad)) if bad else ''))
